@@ -469,7 +469,9 @@ func judge(w *world, b *vlib.Batch) {
 		}
 		var missing []string
 		for k, n := range need {
-			if have[k] < n {
+			// waiting = not there yet but written later (a line that never arrives is
+			// the count check's finding, not a stuck one)
+			if have[k] < n && stats[k].got > have[k] {
 				missing = append(missing, k)
 			}
 		}
@@ -756,6 +758,8 @@ func judge(w *world, b *vlib.Batch) {
 	b.Count("entries_after_shutdown_returned", int64(afterRet))
 	b.Count("level_flip_actions", w.flipActions.Load())
 	b.Count("twin_blocks", w.twinBlocks.Load())
+	b.Count("submissions_after_plain_lines_of_same_goroutine", w.submitsAfterPlain.Load())
+	b.Count("global_level_changes_with_pkg_levels_untouched", int64(w.globalOnlyChanges))
 	b.Count("idle_points_judged", int64(len(w.idlePoints)))
 	b.Count("idle_points_not_reached", int64(w.idleSkipped))
 	b.Count("idle_rounds_line_logged_during_final_write", int64(w.idleRounds))
